@@ -293,14 +293,23 @@ def run_jobs(jobs, procs=NPROC, progress=False):
 
 
 def _frontier(args):
-    """Find a decision depth whose frontier has enough prefixes to feed the pool."""
+    """Refine a frontier of decision prefixes until it can feed the pool.  Paths that
+    complete above the frontier are accounted for here (once)."""
     job, procs = args
+    t0 = time.time()
+    total = Acc()
+    label = job.label
+    prefixes = [()]
     depth = 4
-    while True:
-        label, acc, frontier, w = _run_prefix((job, None, depth))
-        if not frontier or len(frontier) >= 6 * procs or depth >= 60:
-            return label, acc, frontier, w
-        depth += 2
+    while prefixes and len(prefixes) < 6 * procs and depth < 400 and time.time() - t0 < 20:
+        nxt = []
+        for pre in prefixes:
+            label, acc, fr, _ = _run_prefix((job, list(pre), len(pre) + depth))
+            total.merge(acc)
+            nxt.extend(tuple(f) for f in fr)
+        prefixes = nxt
+        depth = 2
+    return label, total, [list(p) for p in prefixes], time.time() - t0
 
 
 # ----------------------------------------------------------------------------------
